@@ -1,2 +1,10 @@
-(* C12 *)
-From WaxModel Require Import Base.
+(* C12 -- Root and semantic-literal queries agree with what the pattern matches. *)
+From WaxModel Require Import Base Token Regex Spec Variance Fold.
+From WaxProofs Require Import SpecFacts.
+
+(* for every token tree (globs and combinators): "always rooted" => every path of the documented language
+   begins with a separator *)
+Theorem C12_root_sound :
+  forall orbit t p, nonempty_branches t = true -> has_root t = Always -> Lang orbit t p -> starts_sep p = true.
+Proof. exact root_sound. Qed.
+Print Assumptions C12_root_sound.
